@@ -172,7 +172,9 @@ def run(ctx, rep):
     agg = [s for b in bf.blocks for s in b['s'] if s[0] == '=' and s[2]['r'] == 'agg' and s[2].get('adt') == TDR]
     if agg:
         v = sl._rvalue(bf, agg[0][2], set(), 0, None)
-        ok = all(any(x[0] == 'call' and x[1] == 'libcnb_test::util::random_docker_identifier' for x in walk(fv)) for _, fv in v[3])
+        names = {'image_name', 'build_cache_volume_name', 'launch_cache_volume_name'}
+        ok = names <= {n for n, _ in v[3]} and all(any(x[0] == 'call' and x[1] == 'libcnb_test::util::random_docker_identifier' for x in walk(fv))
+                                                     for n, fv in v[3] if n in names)
         rep.check(ok, 'R4', 'names-generated', w(bf), 'all three names derive from random_docker_identifier()', 'resource names are not generated per run: ' + vstr(v)[:160])
     rb = prog.find_one(r"^libcnb_test::test_context::TestContext::<'_>::rebuild$")
     rep.analysed(rb)
